@@ -420,10 +420,19 @@ def setXl (o : MagnetOracle) (v : String) : Except Err Int :=
 def mkUrl (o : MagnetOracle) (v : String) : Except Err String :=
   if o.isUrl v then .ok v else .error .url
 
+/-- `URL.__new__`: `str(s).replace(' ', '+')` -/
+def plusSpaces (s : String) : String := String.ofList (s.toList.map fun c => if c == ' ' then '+' else c)
+
+/-- an item of `tr` / `ws`: `MonitoredList.replace` coerces every item with `URL(item)` and
+    `extend → insert` coerces the resulting `URL` object again, whose text has '+' for ' ' — so
+    `is_url` must accept both spellings (a leading space makes the second one fail) -/
+def mkUrl2 (o : MagnetOracle) (v : String) : Except Err String :=
+  if o.isUrl v then (if o.isUrl (plusSpaces v) then .ok v else .error .url) else .error .url
+
 def mkUrls (o : MagnetOracle) : List String → Except Err (List String)
   | [] => .ok []
   | v :: t =>
-    match mkUrl o v with
+    match mkUrl2 o v with
     | .error e => .error e
     | .ok u => match mkUrls o t with
       | .error e => .error e
